@@ -297,6 +297,9 @@ def c02_r5(ctx: Ctx, rule):
     for name in sorted(nsmaps):
         defs = all_assignments(fi.node, name)
         fresh = bool(defs) and all(d is not None and (isinstance(d, (ast.Dict, ast.DictComp)) or (isinstance(d, ast.Call) and (call_name(d) in ("dict", "copy", "deepcopy")))) for d in defs)
+        if name in fi.params:
+            # a map handed in by the caller is shared unless every path rebinds it to a copy before it is written to
+            fresh = False
         res.ob("namespace map `%s` is created inside serialize_bundle: %s" % (name, fresh))
         if not fresh:
             res.fail(rule.id, "xml-scope::shared-nsmap::%s" % name, ctx.loc(q, fi.node), "the namespace map `%s` is not created per call: declarations added for one bundle leak into the bundles written after it" % name,
